@@ -680,6 +680,142 @@ func c12LocalCall(c *ast.CallExpr, method string) string {
 	return ""
 }
 
+// c12CounterWrites lists every write to the id counter field in package engine/pool
+// (all non-test files): (function, kind) with kind inc | init | assign | dec | unknown.
+// The counter field is the one NewThreadID increments.
+func c12CounterWrites() ([][2]string, error) {
+	dir := filepath.Join(repoDir(), "engine", "pool")
+	files, err := filepath.Glob(filepath.Join(dir, "*.go"))
+	if err != nil {
+		return nil, err
+	}
+	sort.Strings(files)
+	fset := token.NewFileSet()
+	var parsed []*ast.File
+	for _, fn := range files {
+		if strings.HasSuffix(fn, "_test.go") {
+			continue
+		}
+		f, err := parser.ParseFile(fset, fn, nil, 0)
+		if err != nil {
+			return nil, err
+		}
+		parsed = append(parsed, f)
+	}
+	selName := func(e ast.Expr) string {
+		if s, ok := e.(*ast.SelectorExpr); ok {
+			return s.Sel.Name
+		}
+		return ""
+	}
+	positive := func(e ast.Expr) bool {
+		l, ok := e.(*ast.BasicLit)
+		return ok && l.Kind == token.INT && strings.Trim(l.Value, "0") != "" && !strings.HasPrefix(l.Value, "-")
+	}
+	// the counter field and the pool type
+	counter, poolType := "", ""
+	for _, f := range parsed {
+		for _, d := range f.Decls {
+			fd, ok := d.(*ast.FuncDecl)
+			if !ok || fd.Name.Name != "NewThreadID" || fd.Recv == nil || fd.Body == nil {
+				continue
+			}
+			if st, ok := fd.Recv.List[0].Type.(*ast.StarExpr); ok {
+				if id, ok := st.X.(*ast.Ident); ok {
+					poolType = id.Name
+				}
+			}
+			ast.Inspect(fd.Body, func(n ast.Node) bool {
+				switch x := n.(type) {
+				case *ast.IncDecStmt:
+					if counter == "" {
+						counter = selName(x.X)
+					}
+				case *ast.AssignStmt:
+					if counter == "" && len(x.Lhs) == 1 {
+						counter = selName(x.Lhs[0])
+					}
+				case *ast.CallExpr:
+					if s, ok := x.Fun.(*ast.SelectorExpr); ok && strings.HasPrefix(s.Sel.Name, "Add") && len(x.Args) > 0 && counter == "" {
+						if u, ok := x.Args[0].(*ast.UnaryExpr); ok {
+							counter = selName(u.X)
+						}
+					}
+				}
+				return true
+			})
+		}
+	}
+	if counter == "" || poolType == "" {
+		return [][2]string{{"NewThreadID", "unknown"}}, nil
+	}
+	var out [][2]string
+	for _, f := range parsed {
+		for _, d := range f.Decls {
+			fd, ok := d.(*ast.FuncDecl)
+			if !ok || fd.Body == nil {
+				continue
+			}
+			name := fd.Name.Name
+			handled := map[ast.Node]bool{}
+			ast.Inspect(fd.Body, func(n ast.Node) bool {
+				switch x := n.(type) {
+				case *ast.IncDecStmt:
+					if selName(x.X) == counter {
+						handled[x.X] = true
+						if x.Tok == token.INC {
+							out = append(out, [2]string{name, "inc"})
+						} else {
+							out = append(out, [2]string{name, "dec"})
+						}
+					}
+				case *ast.AssignStmt:
+					for _, l := range x.Lhs {
+						if selName(l) != counter {
+							continue
+						}
+						handled[l] = true
+						switch {
+						case x.Tok == token.ADD_ASSIGN && len(x.Rhs) == 1 && positive(x.Rhs[0]):
+							out = append(out, [2]string{name, "inc"})
+						case x.Tok == token.SUB_ASSIGN:
+							out = append(out, [2]string{name, "dec"})
+						default:
+							out = append(out, [2]string{name, "assign"})
+						}
+					}
+				case *ast.CallExpr:
+					// atomic.AddUintNN(&x.counter, k) / atomic.Store…/Swap…/CompareAndSwap…
+					if s, ok := x.Fun.(*ast.SelectorExpr); ok && len(x.Args) > 0 {
+						if u, ok := x.Args[0].(*ast.UnaryExpr); ok && u.Op == token.AND && selName(u.X) == counter {
+							handled[u] = true
+							switch {
+							case strings.HasPrefix(s.Sel.Name, "Add") && len(x.Args) == 2 && positive(x.Args[1]):
+								out = append(out, [2]string{name, "inc"})
+							case strings.HasPrefix(s.Sel.Name, "Load"):
+							case strings.HasPrefix(s.Sel.Name, "Store") || strings.HasPrefix(s.Sel.Name, "Swap") || strings.HasPrefix(s.Sel.Name, "CompareAndSwap"):
+								out = append(out, [2]string{name, "assign"})
+							default:
+								out = append(out, [2]string{name, "unknown"})
+							}
+						}
+					}
+				case *ast.UnaryExpr:
+					if x.Op == token.AND && selName(x.X) == counter && !handled[x] {
+						out = append(out, [2]string{name, "unknown"}) // address escapes
+					}
+				case *ast.CompositeLit:
+					if id, ok := x.Type.(*ast.Ident); ok && id.Name == poolType {
+						out = append(out, [2]string{name, "init"})
+					}
+				}
+				return true
+			})
+		}
+	}
+	return out, nil
+}
+
 func c12WriteFacts(sb *strings.Builder, name, doc string, xs []c12Access, err error) {
 	if err != nil {
 		fmt.Fprintln(os.Stderr, err)
@@ -737,6 +873,20 @@ func c12Tool(args []string) int {
 	c12WriteFacts(&sb, "tableAccesses", "every access to erp.Mutexes / erp.MutexeOwners in package interpreter: (function:table, MutexesMutex held there)", acc, err)
 	rel, err := c12ReleaseDeferred()
 	c12WriteFacts(&sb, "releases", "every Lock / non-deferred Unlock of a local mutex value in mutexRuntime.Eval: (what, acceptable)", rel, err)
+	cw, err := c12CounterWrites()
+	if err != nil {
+		fmt.Fprintln(os.Stderr, err)
+		cw = [][2]string{{"extraction failed", "unknown"}}
+	}
+	sb.WriteString("/-- every write to the id counter field in package engine/pool: (function, inc|init|assign|dec|unknown) -/\n")
+	sb.WriteString("def idCounterWrites : List (String × String) := [")
+	for i, w := range cw {
+		if i > 0 {
+			sb.WriteString(", ")
+		}
+		sb.WriteString(fmt.Sprintf("(%q, %q)", w[0], w[1]))
+	}
+	sb.WriteString("]\n\n")
 	sb.WriteString("end Ecal.Gen.C12\n")
 	if len(args) > 1 {
 		if err := os.WriteFile(args[1], []byte(sb.String()), 0644); err != nil {
